@@ -53,7 +53,7 @@ def gen_plan(rng, tier, index):
 
 def directed_plans(tier):
     base = {'t': 0, 'u': 0, 'a': [0, 2, 3, 4, 5, 6], 'flag': False, 'flag2': False}
-    plans = []
+    plans = [{'mode': 'bytes_labels', 'family': {'roots': []}, 'ops': []}]
     ch = {'roi': {'values': [1], 'container': 'list'}, 'name': {'values': ['ch3'], 'container': 'list'}}
     # all shapes incl. single observation / channel / time point for the temporal conversions
     for n_obs in (1, 2):
@@ -91,8 +91,52 @@ def summarize(plan):
             'ops': [{'op': o['op'], 't': o['t'], 'u': o['u']} for o in plan['ops']]}
 
 
+def _bytes_labels(plan, ctx):
+    """label type bytes (what a descriptor read from an HDF5 file may hold): selections by one label, by a list of labels and
+    splits pick exactly the rows carrying it, for Dataset and TemporalDataset, list- and array-held"""
+    import numpy as np
+    from rsatoolbox.data import Dataset, TemporalDataset
+    labs = [b'face', b'house', b'face', b'cat', b'house', b'face']
+    ctx.tick('op', op='bytes_labels')
+    for temporal in (False, True):
+        for as_array in (False, True):
+            m = np.arange(6 * 2 * (3 if temporal else 1), dtype=float).reshape((6, 2, 3) if temporal else (6, 2)) + 0.5
+            od = {'cond': np.array(labs) if as_array else list(labs), 'row': list(range(6))}
+            ds = (TemporalDataset(m, obs_descriptors=od, channel_descriptors={'ch': [b'a', b'b']}, time_descriptors={'time': [0.0, 1.0, 2.0]})
+                  if temporal else Dataset(m, obs_descriptors=od, channel_descriptors={'ch': [b'a', b'b']}))
+            what = f'{"TemporalDataset" if temporal else "Dataset"}, {"array" if as_array else "list"} of bytes labels'
+            for value, exp in ((b'face', [0, 2, 5]), ([b'face'], [0, 2, 5]), ([b'cat', b'house'], [1, 3, 4]), (b'dog', [])):
+                try:
+                    got = [int(x) for x in ds.subset_obs('cond', value).obs_descriptors['row']]
+                except Exception as e:
+                    if not exp:
+                        continue          # (a selection matching nothing may be refused)
+                    ctx.violation('dataset_twin.raises', f'subset_obs:bytes-label:raises:{type(e).__name__}', f'subset_obs(cond, {value!r}) raised {type(e).__name__}: {e} ({what})')
+                    return
+                if got != exp:
+                    ctx.violation('dataset_twin.content', 'subset_obs:content:obs:bytes-label',
+                                  f'subset_obs(cond, {value!r}) returned rows {got}, the rows carrying it are {exp} ({what})')
+                    return
+            try:
+                ch = [x for x in ds.subset_channel('ch', b'b').channel_descriptors['ch']]
+                parts = ds.split_obs('cond')
+                rows = sorted(int(x) for p_ in parts for x in p_.obs_descriptors['row'])
+            except Exception as e:
+                ctx.violation('dataset_twin.raises', f'split_obs:bytes-label:raises:{type(e).__name__}', f'split/subset by bytes labels raised {type(e).__name__}: {e} ({what})')
+                return
+            if len(ch) != 1 or rows != list(range(6)) or len(parts) != 3:
+                ctx.violation('dataset_twin.content', 'split_obs:content:obs:bytes-label',
+                              f'subset_channel(ch, b"b") kept {ch}; split_obs(cond) gave {len(parts)} parts holding rows {rows} ({what})')
+                return
+            ctx.probe('bytes_label_cells')
+    ctx.nontrivial = True
+    ctx.behaviour('bytes_labels')
+
+
 def execute(plan, ctx, prop=PROPERTY):
     import rsatoolbox  # noqa
+    if plan.get('mode') == 'bytes_labels':
+        return _bytes_labels(plan, ctx)
     ctx.components.update(['real:rsatoolbox.data.dataset', 'real:rsatoolbox.data.ops', 'real:rsatoolbox.data.computations',
                            'real:rsatoolbox.util.descriptor_utils', 'real:pandas (DataFrame round trip)'])
     pool = Pool(ctx, prop)
